@@ -88,6 +88,9 @@ func refPart(p string) (int, netip.Addr) {
 }
 
 func isFwdName(k *kase, canon string) bool {
+	if canon == "Connection" {
+		return false // never varied: the two runs must carry the same Connection fields
+	}
 	for _, n := range fwdNames {
 		if canon == n {
 			return true
@@ -155,7 +158,7 @@ func variants(k *kase) [][]hdrField {
 	spoof = append(spoof, hdrField{"X-Forwarded-For", "6.6.6.6, 10.9.9.9"}, hdrField{"X-Forwarded-Proto", "spoof"},
 		hdrField{"X-Forwarded-Host", "evil.test"}, hdrField{"Forwarded", "for=6.6.6.6"})
 	for _, n := range k.effectiveCIH() {
-		if textproto.CanonicalMIMEHeaderKey(n) != "X-Forwarded-For" {
+		if c := textproto.CanonicalMIMEHeaderKey(n); c != "X-Forwarded-For" && c != "Connection" {
 			spoof = append(spoof, hdrField{n, "6.6.6.6"})
 		}
 	}
@@ -321,17 +324,18 @@ func (p *prop) tagsAndOracle(k *kase, impl string, o *obs, out *core.Outcome) {
 				break
 			}
 			if !hTrusted && fwdPart(impl2) != fwdPart(impl) {
-				cls := "untrusted-header-influences-forwarded"
-				if anyOmit && (conn || connMentions(k, hv)) {
-					cls = "omit-defeated-by-connection-header"
-				}
-				fail(cls, fmt.Sprintf("variant %d of the forwarding headers changes %q into %q", vi, fwdPart(impl), fwdPart(impl2)))
+				// the variants carry the same Connection fields as the case, so even with a field
+				// pre-set to nil the outcome must be identical (untrusted_forwarding_headers_irrelevant)
+				fail("untrusted-header-influences-forwarded", fmt.Sprintf("variant %d of the forwarding headers changes %q into %q", vi, fwdPart(impl), fwdPart(impl2)))
 				break
 			}
 		}
 	}
-	if !srvTrusted && !hTrusted && anyOmit {
-		// two-run relation over the Connection header (not a forwarding header, but attacker-chosen)
+	if !srvTrusted && !hTrusted && anyOmit && !conn {
+		// NOT a property failure, only a histogram tag: with a field pre-set to nil by an earlier
+		// handler, the peer's `Connection: <field>` makes reverse_proxy send the field after all —
+		// with the connection's value (checked above), so C10 holds.  Model facts:
+		// untrusted_noninterference_full_fails / _partial.
 		var hv []hdrField
 		for i, n := range fwdNames {
 			if k.omit[i] {
@@ -339,8 +343,8 @@ func (p *prop) tagsAndOracle(k *kase, impl string, o *obs, out *core.Outcome) {
 				break
 			}
 		}
-		if impl2, _, err := p.serve(k, hv); err == nil && !conn && fwdPart(impl2) != fwdPart(impl) {
-			fail("omit-defeated-by-connection-header", fmt.Sprintf("an untrusted peer's Connection header changes %q into %q", fwdPart(impl), fwdPart(impl2)))
+		if impl2, _, err := p.serve(k, hv); err == nil && fwdPart(impl2) != fwdPart(impl) {
+			tag("omit:connection-header-revives-nil-field")
 		}
 	}
 
